@@ -50,6 +50,9 @@ package mobius
 //@   ensures forall(k, -1000000000000, 1000000000000, k != ip ==> has(bf.banList, k) == has_old(bf.banList, k) && get(bf.banList, k) == get_old(bf.banList, k))
 //@   ensures err == nil ==> callres("os.WriteFile") == nil
 //@   before call os.WriteFile assert same(arg1, callres("gopkg.in/yaml.v3.Marshal", 0))
+//@   before call os.WriteFile assert locked(bf, "Mutex")
+//@   before call os.Rename assert locked(bf, "Mutex")
+//@   before call gopkg.in/yaml.v3.Marshal assert locked(bf, "Mutex")
 //@   guarded_by bf.Mutex: banList
 
 // C17: a disconnect with ban option 1 bans the target's address for 30 minutes, option 2 forever.
